@@ -384,7 +384,7 @@ func c14Client(e *c14Env, b C14Batch, i int, spec C14Client, tgtMux, dnsMux *tag
 }
 
 func TestC14_Lifecycle(t *testing.T) {
-	p := kit.Prop[C14Batch]{ID: "C14", Name: "Lifecycle", Quick: 16, Thorough: 400, Gen: genC14(24, false), Run: runC14}
+	p := kit.Prop[C14Batch]{ID: "C14", Name: "Lifecycle", Quick: 24, Thorough: 1000, Gen: genC14(24, false), Run: runC14}
 	if kit.Tier() == "thorough" {
 		p.Gen = genC14(64, false)
 	}
@@ -393,6 +393,6 @@ func TestC14_Lifecycle(t *testing.T) {
 
 // TestC14_Long holds DNS associations for 16.5 s (the 17 s promise): one batch per shard.
 func TestC14_Long(t *testing.T) {
-	p := kit.Prop[C14Batch]{ID: "C14", Name: "Long", Quick: 4, Thorough: 64, Gen: genC14(32, true), Run: runC14}
+	p := kit.Prop[C14Batch]{ID: "C14", Name: "Long", Quick: 4, Thorough: 160, Gen: genC14(32, true), Run: runC14}
 	p.Execute(t)
 }
